@@ -129,13 +129,13 @@ def build_order(op, placement: str) -> dict:
     parts += [f"{k}=" + ("nxt()" if isinstance(v, (int, float)) and not isinstance(v, bool) and k not in ("times", "steps") else (json.dumps(v) if isinstance(v, str) else repr(v))) for k, v in kwargs.items()]
     defs = ["cur = 0", "def nxt():", "    global cur", "    cur = cur + 100", "    return cur"]
     lines = ['mon.write("call 0")', f"bz.{name}({', '.join(parts)})"] + GETTERS
-    expected = (name, new_args, new_kwargs)
+    expected = _canonical((name, new_args, new_kwargs))
     if placement == "setup":
         src = common.script(defs + ["bz = Buzzer(8)"] + lines, prologue=PRO)
-        return {"id": f"order:{placement}:{name}:{len(args)}:{sorted(kwargs)}", "src": src, "runs": [{"passes": 0}], "ops": [expected], "placement": "setup"}
+        return {"id": f"order:{placement}:{name}:{len(args)}:{list(kwargs)}", "src": src, "runs": [{"passes": 0}], "ops": [expected], "placement": "setup"}
     src = common.script(defs + ["bz = Buzzer(8)"], lines, prologue=PRO)
     second = _shift(expected, counter[0])
-    return {"id": f"order:{placement}:{name}:{len(args)}:{sorted(kwargs)}", "src": src, "runs": [{"passes": 2}], "ops": [expected], "ops_by_pass": [[expected], [second]], "placement": "loop"}
+    return {"id": f"order:{placement}:{name}:{len(args)}:{list(kwargs)}", "src": src, "runs": [{"passes": 2}], "ops": [expected], "ops_by_pass": [[expected], [second]], "placement": "loop"}
 
 
 def _shift(op, by):
@@ -144,10 +144,41 @@ def _shift(op, by):
     return (name, [sh(a) for a in args], {k: sh(v, k) for k, v in kwargs.items()})
 
 
-# (keywords written in another order than the signature's are evaluated in signature order by the firmware: recorded
-#  as KF-C16-keyword-evaluation-order, witness only)
-ORDER_OPS = [("play_tone", [1, 1], {}), ("play_tone", [1], {"duration_ms": 1}), ("beep", [1], {"on_ms": 1, "off_ms": 1, "times": 2}),
-             ("sweep", [1, 1], {"duration_ms": 1, "steps": 3}), ("melody", ["error"], {"tempo": 1}), ("melody", ["notify"], {"tempo": 1})]
+# every way of writing the numeric arguments: the first j positionally (signature order), the others as keywords in
+# every order; Python evaluates them in the order written
+_ORDER_SIGS = [("play_tone", ["frequency", "duration_ms"], 2, {}), ("beep", ["frequency", "on_ms", "off_ms"], 1, {"times": 2}),
+               ("sweep", ["start_hz", "end_hz", "duration_ms"], 2, {"steps": 3}), ("melody", ["tempo"], 0, {})]
+
+
+def _order_ops():
+    out = []
+    for name, params, max_pos, consts in _ORDER_SIGS:
+        lead = ["error"] if name == "melody" else []
+        for j in range(0, max_pos + 1):
+            rest = params[j:]
+            for perm in itertools.permutations(rest):
+                for const_first in ((False, True) if consts and perm else (False,)):
+                    kwargs = dict(consts) if const_first else {}
+                    kwargs.update({k: 1 for k in perm})
+                    kwargs.update(consts)
+                    out.append((name, lead + [1] * j, kwargs))
+    out.append(("melody", ["notify"], {"tempo": 1}))
+    return out
+
+
+ORDER_OPS = _order_ops()
+ORDER_POSITIONAL = {"play_tone": ["frequency", "duration_ms"], "beep": ["frequency"], "sweep": ["start_hz", "end_hz"], "melody": ["name"]}
+
+
+def _canonical(op):
+    """the call as the protocol model reads it: leading parameters positional"""
+    name, args, kwargs = op
+    args, kwargs = list(args), dict(kwargs)
+    for pname in ORDER_POSITIONAL[name][len(args):]:
+        if pname not in kwargs:
+            break
+        args.append(kwargs.pop(pname))
+    return (name, args, kwargs)
 
 
 def build(seq: Sequence[int], all_ops, mode: str, placement: str) -> Optional[dict]:
